@@ -397,10 +397,27 @@ class Driver(object):
                                default=v['default'],
                                data=v['data'] if k else None)
         other.align_particles()
-        log.append(('append_parray', k, sorted(given)))
-        pa.append_parray(other)
+        # constants of the appended array: with update_constants=True those
+        # the destination lacks are taken over, those it has stay as they are
+        upd = bool(rng.random() < 0.4)
+        newc = {}
+        if upd:
+            for cn in list(m.constants)[:2]:
+                other.add_constant(cn, np.asarray(m.constants[cn]) * 0 + 9.0)
+            cname = 'oc%d' % self.kprop
+            self.kprop += 1
+            newc[cname] = val(rng, 'double', (int(rng.integers(1, 4)),))
+            other.add_constant(cname, newc[cname].copy())
+        log.append(('append_parray', k, sorted(given),
+                    'update_constants=%s' % upd))
+        if upd:
+            pa.append_parray(other, update_constants=True)
+        else:
+            pa.append_parray(other)
         if k == 0:
             return None            # documented early return: nothing happens
+        for cn, cv in newc.items():
+            m.constants[cn] = np.asarray(cv, dtype=float).copy()
         # properties of `other` missing in self are added (default from other)
         for p, arr in other.properties.items():
             if p not in m.meta:
